@@ -107,6 +107,8 @@ def gen_cases(tier):
     for el in ("DECIMAL(10,2)", "VARCHAR(5)"):
         T += ["ARRAY<%s>" % el, "MAP<STRING,%s>" % el, "STRUCT<a:%s>" % el, "STRUCT<a:%s,b:INT>" % el, "STRUCT<a:INT,b:%s>" % el, "ARRAY<ARRAY<%s>>" % el]
     T += wide(1) + wide(2)[::7]
+    # field / element names that CONTAIN a type-modifier keyword
+    T += ["STRUCT<identity:STRING,b:INT>", "MAP<STRING,identity_t>", "STRUCT<user_identity:STRUCT<a:INT>,b:STRING>", "ARRAY<identity_t>"]
     if tier == "thorough":
         T += types(3) + types(4) + wide(2) + wide(3)[::5]
     seen, cases = set(), []
